@@ -200,6 +200,11 @@ def helper_shape(fx, path):
             # `ZEROS.split_at(n).0` is `ZEROS[..n]`
             if arg[0] == "field" and arg[2] == "0" and arg[1][0] == "call" and arg[1][1].endswith("split_at") and len(arg[1][2]) == 2:
                 arg = ("index", arg[1][2][0], ("adt", "RangeTo", "RangeTo", (("end", arg[1][2][1]),)))
+            if arg[0] == "index" and arg[1][0] == "repeat" and arg[1][1] == ("lit", "int", 0) and str(arg[1][2]).isdigit() \
+                    and arg[2][0] == "adt" and arg[2][2] == "RangeTo" and dict(arg[2][3]).get("end") is not None:
+                # `[0; N]` (a constant or a plain static holding it)
+                pieces.append(("padexpr", dict(arg[2][3])["end"], int(arg[1][2])))
+                continue
             if arg[0] == "index" and arg[1][0] == "const" and arg[2][0] == "adt" and arg[2][2] == "RangeTo":
                 zeros = arg[1][2] or ""
                 m = re.match(r'^\*?b"((\\x00)+)"$', zeros)
